@@ -463,7 +463,11 @@ func c11Commit(env *corekit.Env, repo, diamondID string, mode model.ConflictMode
 func c11CommitOpt(env *corekit.Env, repo, diamondID string, mode model.ConflictMode, byHash map[string][]byte, retry bool) string {
 	stores := env.Stores
 	g := &crashstore.Group{}
-	if retry {
+	if retry && c11Page%2 == 0 {
+		// the first index file of the bundle cannot be written: the first Commit fails half-way
+		g.FailOnceOp, g.FailOnceAt = "put", 1
+		stores = corekit.WithStores(env.Wal, env.ReadLog, env.Blob, crashstore.Wrap(g, "meta", env.Meta), crashstore.Wrap(g, "vmeta", env.VMeta))
+	} else if retry {
 		g.FailReadOp, g.FailReadKey, g.FailReadAt = "get", "/splits/", 1
 		stores = corekit.WithStores(env.Wal, env.ReadLog, env.Blob, crashstore.Wrap(g, "meta", env.Meta), crashstore.Wrap(g, "vmeta", env.VMeta))
 	}
@@ -472,7 +476,7 @@ func c11CommitOpt(env *corekit.Env, repo, diamondID string, mode model.ConflictM
 		core.DiamondMessage("verif"), core.DiamondLogger(corekit.Nop))
 	c11Page++
 	err := corekit.Recover(func() error { return d.Commit(core.BatchSize(c11Pages[c11Page%len(c11Pages)])) })
-	if retry && err != nil && g.Reads() >= 1 {
+	if retry && err != nil {
 		err = corekit.Recover(func() error { return d.Commit(core.BatchSize(c11Pages[c11Page%len(c11Pages)])) })
 	}
 	if err != nil {
